@@ -22,7 +22,7 @@ def one(d):
         return name, ok, f"pristine={r0.returncode} apply={ra.returncode} patched={None if r1 is None else r1.returncode} baseline={None if rb is None else rb.stdout.strip().splitlines()[-1][:60]}"
     finally:
         sh("git", "-C", "/repo", "worktree", "remove", "--force", wt); shutil.rmtree(wt, ignore_errors=True)
-seeds = sorted(d for d in glob.glob("/verif/seeded/*") if os.path.isdir(d) and (not pref or any(os.path.basename(d).startswith(p) for p in pref)))
+seeds = sorted(d for d in glob.glob("/verif/seeded/*") if os.path.isfile(os.path.join(d, "meta.json")) and (not pref or any(os.path.basename(d).startswith(p) for p in pref)))
 with ThreadPoolExecutor(4) as ex:
     res = list(ex.map(one, seeds))
 stale = 0
